@@ -549,6 +549,15 @@ func (r *run) afterSettle(st []tStatus) {
 	if r.c.Prim == "outer" {
 		r.outerObserve()
 	}
+	if r.c.Prim == "context" {
+		// a waiter whose context has ended stops waiting, whoever holds the lock in whatever mode
+		for t, th := range r.th {
+			if th.ph == phInLock && st[t] == stBlocked && th.ctx != nil && th.ctx.Err() != nil {
+				r.viol = append(r.viol, violation{"context-cancelled-waiter-still-waiting", fmt.Sprintf("caller %d is still blocked in Lock/RLock (mode %s) after its context was cancelled", t, th.md)})
+				r.abort.Store(true)
+			}
+		}
+	}
 	if r.c.Prim == "fifomap" {
 		// no-leak monitor: entries = keys with a holder or waiter; ilen = their number
 		want := map[int]int{}
